@@ -187,17 +187,6 @@ func Format(input []byte) []byte {
 			continue
 		}
 
-		if !escaped && ch == '\\' {
-			tokenEnded = false
-			if space {
-				write(' ')
-				space = false
-			}
-			write(ch)
-			escaped = true
-			continue
-		}
-
 		if escaped {
 			if ch == '<' {
 				heredocEscaped = true
@@ -210,6 +199,18 @@ func Format(input []byte) []byte {
 				space = true
 			}
 			continue
+		}
+
+		if ch == '\\' {
+			escaped = true
+			if quoted {
+				write(ch)
+				continue
+			}
+			// outside of quotes the backslash is an ordinary character of
+			// a word: it needs the pending line breaks, indentation, space
+			// and opening brace like any other (the escaped character
+			// that follows is then written as-is)
 		}
 
 		if quoted {
